@@ -86,6 +86,50 @@ theorem error_iff_some_failed (hr : Reachable r w m s) {j : Nat} {x : Res} :
       obtain ⟨e1, e2, e3, e4⟩ := d4 t hxt
       exact ⟨e1, e2, e3, e4, (hA.ex_le t).2 e4⟩
 
+/-- Completion callbacks: `Done(f)` runs `f` in a goroutine that first waits for
+`j.completed` to be closed. `completed j` is closed only together with a result of the
+normal path; a job answered with `ErrShutdown` never gets it closed — its callback never
+runs and the goroutine started by `Done` stays blocked (observed on the real code and
+recorded by the harness; the property does not promise callbacks for shutdown jobs). -/
+theorem shutdown_job_never_completed (hr : Reachable r w m s) {j : Nat}
+    (hd : s.delivered j = some .shutdown) : s.completed j = false := by
+  cases hc : s.completed j with
+  | false => rfl
+  | true =>
+    obtain ⟨x, h1, h2⟩ := (invC_reachable hr).compl_ok j hc
+    rw [hd] at h1
+    cases h1
+    exact absurd rfl h2
+
+/-- … and a callback can only run after every started task of its job has ended: when
+`completed j` is closed, every submitted task of `j` is finished or was skipped without
+ever starting, and none is in flight. -/
+theorem callback_after_tasks (hr : Reachable r w m s) {j : Nat} (hc : s.completed j = true) :
+    ∀ t, t < s.ntasks → s.jobOf t = j →
+      (s.finished t = true ∨ s.execs t = 0) ∧ ∀ i, has (s.w i) t = false := by
+  intro t ht hj
+  have hA := invA_reachable hr
+  have hB := invB_reachable hr
+  have hC := invC_reachable hr
+  obtain ⟨x, hd, hx⟩ := hC.compl_ok j hc
+  have htk := taken_of_delivered hr hd
+  obtain ⟨_, hch, _, _⟩ := hC.deliv j x hd hx
+  have hnot : ∀ i, has (s.w i) t = false := by
+    intro i
+    cases hh : has (s.w i) t with
+    | false => rfl
+    | true =>
+      have := hB.w_cur i t hh
+      rw [hj] at this
+      have := (hB.cur_ok j this).2.2.1
+      rw [hd] at this; cases this
+  refine ⟨?_, hnot⟩
+  rcases hC.acct t ht (by rw [hj]; exact htk) (by rw [hj, hd]; simpa using hx) with a | ⟨i, hi⟩ | a | a
+  · rw [hj, hch] at a; cases a
+  · rw [hnot i] at hi; cases hi
+  · exact Or.inl a
+  · exact Or.inr a.1
+
 /-- Jobs are processed one at a time: every task that a worker holds or runs belongs to the
 job the scheduler is currently processing, and whenever the scheduler is between jobs (in
 particular when it takes the next job from the queue) no task is in flight — every started
